@@ -87,6 +87,15 @@ def _all_input_dependent_calls(ctx, fn):
     return out
 
 
+def _returns_none(ex) -> bool:
+    v = ex.value
+    if ex.kind == "end" or v is None or (isinstance(v, ast.Constant) and v.value is None):
+        return True
+    if isinstance(v, ast.Name):
+        return all((True, f"{v.id} is None") in must for must, _ in ex.state.parts)
+    return False
+
+
 def rule_fail_isolated(ctx, rep):
     rep.rule(
         "R-FAIL-ISOLATED",
@@ -110,12 +119,15 @@ def rule_fail_isolated(ctx, rep):
                 broad = [h for h in tr.handlers if _handler_types(h) & BROAD]
                 if broad:
                     h = broad[0]
-                    calls_fail = any(isinstance(x, ast.Call) and last_attr(x.func) == "add_failure" for st in h.body for x in ast.walk(st))
-                    returns_none = any(
-                        isinstance(st, ast.Return) and (st.value is None or (isinstance(st.value, ast.Constant) and st.value.value is None))
-                        for st in h.body
-                    ) and not any(isinstance(x, ast.Return) and x.value is not None and not (isinstance(x.value, ast.Constant) and x.value.value is None) for st in h.body for x in ast.walk(st))
-                    writes_in_h = any(id(x) in wids for st in h.body for x in ast.walk(st))
+                    fail_calls = [x for st in h.body for x in ast.walk(st) if isinstance(x, ast.Call) and last_attr(x.func) == "add_failure"]
+                    calls_fail = bool(fail_calls)
+                    evn = f"EV:fail@{id(h)}"
+                    fids = {id(x) for x in fail_calls}
+                    fa_h = FlowAnalysis(fn.node, lambda c, _f=fids, _e=evn: _e if id(c) in _f else None)
+                    after = [e for e in fa_h.exits if e.kind != "raise" and may_event(e.state, evn)]
+                    # every way out of the function after this handler ran hands back None (no changeset for a failed file)
+                    returns_none = all(_returns_none(e) for e in after)
+                    writes_in_h = any(may_event(fa_h.state_at(w["call"]), evn) for w in writes)
                     ok = calls_fail and returns_none and not writes_in_h
                     why = (
                         "its handler "
@@ -193,8 +205,7 @@ def rule_no_changeset_on_failure(ctx, rep):
             if ex.kind == "raise" or not may_event(ex.state, "EV:fail"):
                 continue
             n += 1
-            v = ex.value
-            ok = v is None or (isinstance(v, ast.Constant) and v.value is None)
+            ok = _returns_none(ex)
             rep.check("R-NO-CHANGESET-ON-FAILURE", fn.qname, fn.loc(ex.node) if ex.node is not None else fn.loc(), ok,
                       f"after-failure:{unparse(ex.node)[:30] if ex.node is not None else 'end'}",
                       "a path that recorded a failure for the file does not return None (file both failed and changed)")
